@@ -48,10 +48,11 @@ func hNormalizeFile(pf *ast.File, path string, want map[string]bool) (*ast.File,
 		if !ok || fd.Body == nil || !want[hDeclSpec(fd)] {
 			continue
 		}
+		u := hUncurry(fd) // fn_heap_rest.go: return func(yield) { ... } -> the function of both parameter lists
 		a := hSwitchToIf(fd)
 		l := hUnlabelLoops(fd)
 		b := hInlineLiterals(fd)
-		if a || b || l {
+		if a || b || l || u {
 			changed[hDeclSpec(fd)] = true
 		}
 	}
